@@ -11,6 +11,12 @@ CTX_PROGS = ['a.$substringBefore("-")', 'list.s.$substringAfter("-")', '$pad(?, 
              '$replace(a, /-/, "+")', 'a ~> $replace("-", "+", 1)', 'a ~> $replace("-", "+")', 'a ~> $substring(1, 3)', 'nums ~> $reduce(function($p,$q){$p+$q}, 100)',
              '($f := function($a,$b,$c,$d){[$a,$b,$c,$d]}; a ~> $f(10, 20, 30))', '($f := function($a,$b,$c,$d,$e,$g){$a & $b & $c & $d & $e & $g}; a ~> $f(1,2,3,4,5))',
              '($f := function($a,$b,$c,$d,$e,$g,$h){$a & $g & $h}; a ~> $f(1,2,3,4,5,6))', '($f := function($a,$b,$c,$d,$e,$g,$h,$i){$a & $h & $i}; a ~> $f(1,2,3,4,5,6,7))', 'a ~> $pad(20, "#") ~> $replace("#", "=", 2)', '( $f := function($x){$x * 2}; nums.$f($) )', '$reduce(nums, function($p,$q){$p + $q})', '$string($) & $string($)', '$keys($)',
+             # the same picture under different decimal formats, the same built-in under different options
+             '$formatNumber(-1.5, "0.0")', '$formatNumber(-1.5, "0.0", {"minus-sign": "m"})', '$formatNumber(-1.5, "0.0", {"minus-sign": "~"})', '$formatNumber(1234.5, "0,0")',
+             '$formatNumber(1234.5, "0,0", {"decimal-separator": ",", "grouping-separator": "."})', '$formatNumber(0.25, "0%")', '$formatNumber(0.25, "0%", {"percent": "p"})', '$formatNumber(0.25, "0p", {"percent": "p"})',
+             '$formatNumber(nums[0], "00.0")', '$formatNumber(nums[0], "00.0", {"zero-digit": "\u0660"})', '$formatNumber(12, "#;(#)")', '$formatNumber(-12, "#;(#)")', '$formatNumber(-12, "#!(#)", {"pattern-separator": "!"})',
+             '$fromMillis(86400000 * nums[0], "[D01]/[M01]")', '$fromMillis(86400000 * nums[0], "[D01]/[M01]", "+0100")', '$fromMillis(0, "[H01]:[m01]", "-0330")', '$fromMillis(0, "[H01]:[m01]")',
+             '$formatBase(nums[0] + 20, 2)', '$formatBase(nums[0] + 20, 16)', '$round(nums[0] + 0.125, 2)', '$round(nums[0] + 0.125, 1)', '$split(a, "-", 1)', '$split(a, "-")', '$match(a, /l/, 1)', '$match(a, /l/)',
              # partial applications of context-defaulting built-ins, and the same built-ins invoked through ~> with a bare function (no call node)
              '$substringBefore(?, "-")(a)', '$substringAfter(?, "-")(a)', '($p := $substringBefore(?, "-"); list.s.$p($))', '$contains(?, "-")(a)', '$pad(?, 7, "*")(a)', '$split(?, "-")(a)', '$length(?)(a)',
              'a.("-" ~> $substringBefore)', 'a.("-" ~> $substringAfter)', '"-" ~> $substringBefore', '"-" ~> $substringAfter', 'b.c.("z" ~> $substringBefore)', 'a.("-" ~> $contains)', 'a.("-" ~> $split)', 'a.(7 ~> $pad)',
